@@ -593,8 +593,9 @@ namespace cds { namespace intrusive {
                             nodeSize = arrayNodeSize;
                         }
                         else if (slot.bits() == base_class::flag_array_converting ) {
-                            // the slot is converting to array node right now - skip the node
-                            ++idx;
+                            // the slot is converting to array node right now: wait until the conversion is done,
+                            // then go down to the new array node (skipping the slot would miss the item it holds)
+                            back_off()();
                         }
                         else {
                             if (slot.ptr()) {
@@ -651,8 +652,9 @@ namespace cds { namespace intrusive {
                             idx = nodeSize - 1;
                         }
                         else if (slot.bits() == base_class::flag_array_converting ) {
-                            // the slot is converting to array node right now - skip the node
-                            --idx;
+                            // the slot is converting to array node right now: wait until the conversion is done,
+                            // then go down to the new array node (skipping the slot would miss the item it holds)
+                            back_off()();
                         }
                         else {
                             if (slot.ptr()) {
